@@ -23,6 +23,14 @@ var vhNotExist error = &fs.PathError{Op: "stat", Path: "", Err: fs.ErrNotExist}
 
 func (vhFS) Open(name string) (fs.File, error) { return nil, vhNotExist }
 
+var vhReadDirArg []string // directories importSrc asked to list
+
+// ReadDir records the directory importSrc resolved to and stops the import there.
+func (vhFS) ReadDir(name string) ([]fs.DirEntry, error) {
+	vhReadDirArg = append(vhReadDirArg, name)
+	return nil, vhNotExist
+}
+
 func (vhFS) Stat(name string) (fs.FileInfo, error) {
 	if vPred("isdir", name) {
 		return vhDirInfo{}, nil
@@ -129,8 +137,57 @@ func vh_C16_resolve() {
 	}
 }
 
-var vhRegistry = map[string]func(){"vh_C16_resolve": vh_C16_resolve}
+// ---- relative imports: resolved against the importing file's directory ----
 
-var vhIntVars = map[string]*int{"vhRootSegs": &vhRootSegs, "vhImpSegs": &vhImpSegs}
+var (
+	vhRelUp   = 0 // 0: "./x", 1: "../x"
+	vhRelFrom = 0 // importer: 0 the main file itself ("main"), 1 a package one level below, 2 two levels below
+)
+
+func vh_C16_relative() {
+	vhResetClock()
+	i := vhNewInterp()
+	i.opt.filesystem = vhFS{}
+	i.opt.context.GOPATH = vhGoPath
+	i.srcPkg = map[string]map[string]*symbol{}
+	i.pkgNames = map[string]string{}
+	i.rdir = map[string]bool{}
+	// the main file lives in <d1>/<d2>/main.go
+	d1, d2 := vNondetWordN("dir", vhSegChars, 1, 5), vNondetWordN("dir", vhSegChars, 1, 5)
+	i.name = d1 + "/" + d2 + "/main.go"
+	mainDir := []string{d1, d2}
+	// the importer's directory relative to the main file's directory
+	rPath := mainID
+	importerDir := mainDir
+	for k := 0; k < vhRelFrom; k++ {
+		w := vNondetWordN("sub", vhSegChars, 1, 5)
+		if k == 0 {
+			rPath = w
+		} else {
+			rPath += "/" + w
+		}
+		importerDir = append(importerDir, w)
+	}
+	x := vNondetWordN("imp", vhSegChars, 1, 5)
+	imp := "./" + x
+	want := importerDir
+	if vhRelUp == 1 {
+		imp = "../" + x
+		want = want[:len(want)-1]
+	}
+	wantDir := strings.Join(append(append([]string{}, want...), x), "/")
+	vhReadDirArg = nil
+	vReach("C16.relative")
+	_, err := i.importSrc(rPath, imp, NoTest)
+	vAssert("C16.relative.stops-at-missing-dir", err != nil)
+	// known: importSrc uses the value "main" of rPath to mean "the main file's own
+	// directory", so a package directory that is itself called main is mistaken for it
+	vKnown("C16.rpath-main-collision", vAnd(vhRelFrom == 1, rPath == mainID))
+	vAssert("C16.relative", len(vhReadDirArg) == 1 && vhReadDirArg[0] == wantDir)
+}
+
+var vhRegistry = map[string]func(){"vh_C16_resolve": vh_C16_resolve, "vh_C16_relative": vh_C16_relative}
+
+var vhIntVars = map[string]*int{"vhRootSegs": &vhRootSegs, "vhImpSegs": &vhImpSegs, "vhRelUp": &vhRelUp, "vhRelFrom": &vhRelFrom}
 
 var vhScenarios = map[string]func(map[string]string) bool{}
